@@ -522,6 +522,58 @@ def gen_cases(env, r, quick):
             ex.append(("transpose-output", None, "long"))
         cases.append(Case("file:%s:%s:tin%d:tout%d:%dx%d" % (kind, repr(dl), tin, tout, N, D), base_opts("passthru", ex), txt,
                           intended=rows, tags={"file", kind}))
+    # number spellings: everything `istringstream >> double` accepts must be read (and the model's parseNum agrees);
+    # each family once as a whole COLUMN (a reader that rejects the spelling loses the column in every row: wrong shape /
+    # content, exit 0) and once in a SINGLE token (the row becomes shorter: a well-formed file is rejected)
+    families = {
+        "plus": ["+1.5", "+2", "+0.25", "+7"],
+        "plus-dot": ["+.5", "+.25", "+.125", "+.75"],
+        "trailing-dot": ["5.", "12.", "7.", "3."],
+        "leading-dot": [".5", ".25", ".125", ".75"],
+        "exp-lower": ["1e3", "2e2", "5e1", "25e-2"],
+        "exp-upper": ["1E-3", "2E+2", "5E0", "125E-3"],
+        "plus-exp": ["+1.5e+2", "+2.5e-1", "+1e+0", "+3e+1"],
+        "printf-plus-e": ["+1.5000e+00", "-2.5000e-01", "+0.0000e+00", "+1.2500e+02"],
+        "leading-zeros": ["007.5", "00012", "0.50", "000.25"],
+        "negative-zero": ["-0", "-0.0", "-0e0", "-0."],
+        "leading-space": [" 1.5", "  2", "\t0.25", " -7"],
+        "trailing-space": ["1.5 ", "2  ", "0.25\t", "-7 "],
+    }
+    plain_cols = [["1.25", "-3"], ["2.5", "4"], ["-0.75", "100"], ["8", "-0.125"]]
+    for fam, toks in families.items():
+        vals = [Fraction(t.strip()) for t in toks]
+        for dl in ((",", ";") if quick else (",", ";", "|", ":")):
+            col_rows = [[plain_cols[i][0], toks[i], plain_cols[i][1]] for i in range(4)]
+            col_int = [[Fraction(plain_cols[i][0]), vals[i], Fraction(plain_cols[i][1])] for i in range(4)]
+            cases.append(Case("spell:%s:column:%s" % (fam, repr(dl)), base_opts("passthru", td1 + [("delimiter", dl, "short")]),
+                              "".join(dl.join(row) + "\n" for row in col_rows), intended=col_int,
+                              tags={"file", "spelling", "spell-" + fam}))
+            one_rows = [[plain_cols[i][0], toks[i] if i == 1 else gfmt(float(vals[i])), plain_cols[i][1]] for i in range(4)]
+            cases.append(Case("spell:%s:single:%s" % (fam, repr(dl)), base_opts("passthru", td1 + [("delimiter", dl, "short")]),
+                              "".join(dl.join(row) + "\n" for row in one_rows), intended=col_int,
+                              tags={"file", "spelling", "spell-" + fam}))
+        # and through a real method: the library must receive the same matrix
+        big = [[plain_cols[i % 4][0], toks[i % 4], gfmt(float(data[i][2])), gfmt(float(data[i][3]))] for i in range(len(data))]
+        big_int = [[Fraction(plain_cols[i % 4][0]) + Fraction(i, 7), vals[i % 4], data[i][2], data[i][3]] for i in range(len(data))]
+        big = [[gfmt(float(big_int[i][0])), toks[i % 4], big[i][2], big[i][3]] for i in range(len(data))]
+        big_int = [[Fraction(gfmt(float(big_int[i][0]))), vals[i % 4], data[i][2], data[i][3]] for i in range(len(data))]
+        cases.append(Case("spell:%s:pca" % fam, base_opts("pca"), "".join(",".join(row) + "\n" for row in big), intended=big_int,
+                          tags={"embed", "spelling", "spell-" + fam}))
+    # spellings that are NOT numbers for operator>> or only partly: handled AS WRITTEN (prefix consumed, rest of the token
+    # ignored; a token without a number prefix is dropped) - no property oracle, the model must agree with the CLI
+    as_written = {
+        "junk-suffix": ["1.5x", "2.5abc", "3e", "4.5 7"],
+        "half-exponent": ["1e", "2e+", "3.5e-", "4E"],
+        "inf-nan": ["inf", "nan", "-inf", "NaN"],
+        "hex-and-signs": ["0x1A", "--1", "+-2", "1-2"],
+    }
+    for fam, toks in as_written.items():
+        col_rows = [[plain_cols[i][0], toks[i], plain_cols[i][1]] for i in range(4)]
+        cases.append(Case("aswritten:%s:column" % fam, base_opts("passthru", td1), "".join(",".join(row) + "\n" for row in col_rows),
+                          tags={"file", "malformed", "as-written-" + fam}))
+        one_rows = [[plain_cols[i][0], toks[i] if i == 2 else "9", plain_cols[i][1]] for i in range(4)]
+        cases.append(Case("aswritten:%s:single" % fam, base_opts("passthru", td1), "".join(",".join(row) + "\n" for row in one_rows),
+                          tags={"file", "malformed", "as-written-" + fam}))
     # malformed files
     rows = rand_matrix(r, 4, 3)
     good = file_of(r, rows, ",", plain=True)
@@ -764,6 +816,13 @@ def judge_one(ctx, env, c, plan, lr, exp, act):
                      % (lr[6:], " ".join(D["argv"])), case=D, detail={"harness": lr, "stderr": getattr(ctx, "last_abort_stderr", "")[-1200:]})
         elif "no-final-newline" in c.tags or (c.file is not None and c.file and not c.file.endswith("\n")):
             pass        # judged below by the line-count oracle
+        elif act["rc"] != 0 and exp["exit"] == 0 and c.intended is not None and want is None and lr and lr.startswith("ok|"):
+            # property oracle: a well-formed file (the generator knows the matrix it spells) with valid options, which the
+            # library embeds, must be embedded by the CLI too
+            ctx.fail("read:wellformed-input-rejected:%s" % (sorted(t for t in c.tags if t.startswith("spell-")) or ["file"])[0],
+                     "the CLI exits %d (%s) on a well-formed input file that the library embeds: `%s`"
+                     % (act["rc"], small(act["stderr"].strip(), 120), " ".join(D["argv"])), case=D,
+                     detail={"stderr": act["stderr"][-600:], "input": small(c.file or "", 400)})
         else:
             ctx.broken("corr:exit", "correspondence c20 (exit status of model+library vs CLI)",
                        "exit status differs: model %d (%s), CLI %d (%s)" % (exp["exit"], exp["why"], act["rc"], small(act["stderr"], 160)),
